@@ -170,6 +170,7 @@ pub fn generate(rng: &mut Rng, tier: Tier) -> Plan {
     };
     let df_like = interp == "linear_zero_rate" || rng.chance(0.5);
     let wide_magnitude = rng.chance(0.08);
+    let many_vars = rng.chance(0.1);
     let mut nodes: Vec<NodeSpec> = Vec::new();
     let prefix = "u_";
     for (i, d) in days.iter().enumerate() {
@@ -198,7 +199,7 @@ pub fn generate(rng: &mut Rng, tier: Tier) -> Plan {
         };
         nodes.push(NodeSpec {
             ts: d * DAY + if intraday { rng.i64_in(0, DAY - 1) } else { 0 },
-            num: gen_num(rng, kind, v, 2, prefix),
+            num: gen_num(rng, kind, v, if many_vars { 4 } else { 2 }, prefix),
         });
     }
     nodes.sort_by_key(|n| n.ts);
@@ -262,7 +263,12 @@ pub fn generate(rng: &mut Rng, tier: Tier) -> Plan {
         }
     };
     let index_base = if rng.chance(0.6) {
-        Some(Fx::new(rng.log_uniform(50.0, 400.0)))
+        Some(Fx::new(match rng.below(20) {
+            0 => 1.0,
+            1 => -rng.log_uniform(50.0, 400.0),
+            2 => rng.log_uniform(1e-20, 1e20),
+            _ => rng.log_uniform(50.0, 400.0),
+        }))
     } else {
         None
     };
